@@ -152,6 +152,7 @@ METADATA = {
     # enums
     "enum_color": ({"metadata_type": "define_enum", "namespace": "xAOD.Jet", "name": "Color", "values": ["Red", "Blue"]}, ["atlas"]),
     "enum_color2": ({"metadata_type": "define_enum", "namespace": "xAOD.Jet", "name": "Color", "values": ["Green", "Red"]}, ["atlas"]),
+    "enum_color3": ({"metadata_type": "define_enum", "namespace": "xAOD.Jet", "name": "Color", "values": ["Blue", "Green"]}, ["atlas"]),
     "enum_other": ({"metadata_type": "define_enum", "namespace": "reco.Muon", "name": "Kind", "values": ["Global", "Tracker"]}, None),
     # job scripts
     "js_a": ({"metadata_type": "add_job_script", "name": "blk_a", "script": ["# script a line 1", "# script a line 2"], "depends_on": []}, None),
@@ -215,3 +216,14 @@ def md_for_backend(backend):
 
 def md_foreign(backend):
     return [k for k, (_, bs) in METADATA.items() if bs is not None and backend not in bs]
+
+
+# alternative declarations of the same thing (used when a history keeps translating one query with varying metadata)
+VARIANTS = {
+    "enum_color": ["enum_color2", "enum_color3"],
+    "jet_color_enum": ["jet_color_bool"],
+    "fn_scale": ["fn_scale_int"],
+    "jet_cvals": ["jet_cvals_coll"],
+    "patmu_besttrack_recotrack": ["patmu_globaltrack_int"],
+    "recomu_innertrack_trackref": ["recomu_globaltrack_int"],
+}
